@@ -186,6 +186,74 @@ def _gff_pick_events(args):
     return ev
 
 
+
+def _export_events(seed):
+    """siblings exporting their qualifiers against one parent dictionary, in both orders"""
+    setup_repo_import()
+    from inscripta.biocantor.gene.biotype import Biotype
+    from inscripta.biocantor.gene.feature import FeatureInterval
+    from inscripta.biocantor.location.strand import Strand
+    from bcverif.props.c06 import mk_tx
+
+    rnd = random.Random(seed)
+    ev = []
+    # keys a parent may carry: ordinary ones and the very keys the children add their own attributes to
+    TXK = ["transcript_id", "transcript_name", "transcript_biotype", "protein_id"]
+    CDSK = ["protein_id", "product"]
+    FTK = ["feature_name", "feature_id"]
+    COMMON = ["note", "db_xref", "a"]
+
+    def rdict(keys, lo=0, hi=3):
+        return {k: sorted({"v%02d" % rnd.randrange(12) for _ in range(rnd.randrange(1, 3))})
+                for k in rnd.sample(keys, rnd.randrange(lo, min(hi, len(keys)) + 1))}
+
+    def enc(d):
+        return [[str(k), sorted(str(x) for x in v)] for k, v in sorted(d.items(), key=lambda kv: str(kv[0]))]
+
+    for _ in range(300):
+        kind = rnd.choice(["tx", "cds", "feature"])
+        special = {"tx": TXK, "cds": CDSK, "feature": FTK}[kind]
+        P = rdict(COMMON + special, 1, 4)
+        children = []
+        for ci in range(rnd.choice([2, 2, 3])):
+            own = rdict(COMMON + special, 0, 2)
+            if kind in ("tx", "cds"):
+                tid, sym, pid, prod = "id%d" % ci, rnd.choice(["symA", "symB"]), "prot%d" % ci, rnd.choice(["kinase", "isoform %d" % ci])
+                bt = rnd.choice([Biotype.protein_coding, Biotype.lncRNA])
+                t = mk_tx([[2, 20]], "+", [[2, 20]], None, transcript_id=tid, transcript_symbol=sym, transcript_type=bt,
+                          protein_id=pid, product=prod, qualifiers={k: list(v) for k, v in own.items()})
+                if kind == "tx":
+                    obj = t
+                    attrs = [["transcript_id", tid], ["transcript_name", sym], ["transcript_biotype", bt.name],
+                             ["protein_id", pid]]
+                else:
+                    obj = t.cds
+                    attrs = [["protein_id", pid], ["product", prod]]
+                    own = {k: sorted(map(str, v)) for k, v in (obj.qualifiers or {}).items()}
+            else:
+                fn, fid = "fname%d" % ci, "fid%d" % ci
+                obj = FeatureInterval([2], [9], Strand.PLUS, feature_name=fn, feature_id=fid,
+                                      qualifiers={k: list(v) for k, v in own.items()})
+                attrs = [["feature_name", fn], ["feature_id", fid]]
+            children.append((obj, own, attrs))
+
+        def run_order(order):
+            p = {k: set(v) for k, v in P.items()}
+            res = {}
+            for i in order:
+                try:
+                    res[i] = enc(children[i][0].export_qualifiers(p))
+                except Exception:
+                    res[i] = [["!fail", []]]
+            return res, enc(p)
+
+        idx = list(range(len(children)))
+        r1, p1 = run_order(idx)
+        r2, p2 = run_order(idx[::-1])
+        ev.append(["export", kind, enc(P), [[enc(children[i][1]), children[i][2], r1[i], r2[i]] for i in idx], p1, p2])
+    return ev
+
+
 def _key(ev, clause):
     if clause == "priority:rank0-key-treated-as-unset":
         return "quals:rank0-key-unset"
@@ -211,6 +279,7 @@ def run(chk):
     parts = pmap(_pick_events, [(combos[i::32], chk.seed * 19 + i) for i in range(32)])
     evs = [e for p in parts for e in p]
     evs += _other_events(chk.seed + 5)
+    evs += _export_events(chk.seed + 6)
     parts = pmap(_perm_events, [(chk.seed * 23 + i, 2 if quick else 12, 24 if quick else 120) for i in range(16)])
     evs += [e for p in parts for e in p]
     # the GFF3 parser's own priority lists for gene symbol / biotype / id: every subset containing ID, every order
